@@ -734,6 +734,42 @@ pub fn run(tier: Tier) -> i32 {
         if s.len() > 1 {
             cases.push(CliCase { shape: s.clone(), to: vec![1; s.len() - 1], individuals: false });
         }
+        // targets of the wrong dimensionality that *agree* with the source on the axes they share:
+        // every proper prefix and suffix, every single axis dropped, an axis appended / prepended / doubled
+        let mut wrong: Vec<Vec<usize>> = Vec::new();
+        for k in 1..s.len() {
+            wrong.push(s[..k].to_vec());
+            wrong.push(s[k..].to_vec());
+        }
+        for a in 0..s.len() {
+            if s.len() > 1 {
+                let mut t = s.clone();
+                t.remove(a);
+                wrong.push(t);
+            }
+            let mut t = s.clone();
+            t.insert(a, s[a]);
+            wrong.push(t);
+        }
+        for extra in [1usize, 2, *s.last().unwrap()] {
+            let mut t = s.clone();
+            t.push(extra);
+            wrong.push(t);
+            let mut t = s.clone();
+            t.insert(0, extra);
+            wrong.push(t);
+        }
+        wrong.sort();
+        wrong.dedup();
+        for to in wrong {
+            if to.len() == s.len() {
+                continue;
+            }
+            if to.iter().all(|t| t % 2 == 1) {
+                cases.push(CliCase { shape: s.clone(), to: to.clone(), individuals: true });
+            }
+            cases.push(CliCase { shape: s.clone(), to, individuals: false });
+        }
     }
     let res = par_map(cases.len(), |i| eval_cli(&cases[i], &scratch));
     for v in res.into_iter().flatten() {
@@ -743,7 +779,7 @@ pub fn run(tier: Tier) -> i32 {
         name: "cli: view --project-shape / -p".into(),
         evaluations: cases.len() as u64,
         nontrivial: cases.iter().filter(|c| c.to.iter().zip(&c.shape).any(|(t, s)| t < s)).count() as u64,
-        note: format!("{} shapes x boundary targets incl. invalid ones", cli_shapes.len()),
+        note: format!("{} shapes x boundary targets incl. invalid ones (larger, zero, and every wrong-dimensionality target that agrees with the source on shared axes: prefixes, suffixes, an axis dropped / appended / prepended / doubled)", cli_shapes.len()),
         exhaustive: true,
         extra: vec![],
     });
